@@ -9,6 +9,34 @@ import (
 
 // interpMain writes cases for the interpreter correspondence: one driver line
 // and one JSON record per program.
+// interpSrcFile runs the sources of a JSON list file (directed expectations of a check)
+func interpSrcFile(path, outDir string) error {
+	b, err := os.ReadFile(path)
+	if err != nil {
+		return err
+	}
+	var srcs []string
+	if err := json.Unmarshal(b, &srcs); err != nil {
+		return err
+	}
+	var sb strings.Builder
+	f, err := os.Create(filepath.Join(outDir, "directed.jsonl"))
+	if err != nil {
+		return err
+	}
+	defer f.Close()
+	enc := json.NewEncoder(f)
+	for _, src := range srcs {
+		line, c, ok := interpLine(src, -1)
+		if !ok {
+			line = "interp (undecodable)"
+		}
+		sb.WriteString(line + "\n")
+		enc.Encode(c)
+	}
+	return os.WriteFile(filepath.Join(outDir, "directed.sx"), []byte(sb.String()), 0o644)
+}
+
 func interpMain(seed uint64, n int, outDir, gen string) error {
 	rnd := NewRand(seed, "interp-"+gen)
 	var sb strings.Builder
@@ -26,7 +54,7 @@ func interpMain(seed uint64, n int, outDir, gen string) error {
 	var product []string
 	switch gen {
 	case "c04":
-		product = c04Product()
+		product = append(c04Invocations(), c04Product()...)
 	case "c09":
 		product = c09Product()
 	case "c06":
